@@ -19,7 +19,7 @@ from happysimulator.core.event import (
 )
 from happysimulator.core.event_heap import EventHeap
 from happysimulator.core.protocols import Simulatable
-from happysimulator.core.sim_future import _active_sim_context
+from happysimulator.core.sim_future import _active_sim_context, _get_active_heap
 from happysimulator.core.temporal import Instant
 from happysimulator.instrumentation.recorder import NullTraceRecorder, TraceRecorder
 from happysimulator.instrumentation.summary import (
@@ -201,6 +201,13 @@ class Simulation:
         Events scheduled before ``run()`` is called are remembered so they can
         be replayed on ``control.reset()``.
         """
+        if self._is_running and _get_active_heap() is not self._event_heap:
+            # Injected from outside the loop while a run is in progress (paused,
+            # or at a parallel barrier): these events were created after every
+            # event the run has created so far, so order them accordingly.
+            counter = self._event_heap._event_counter
+            for e in events if isinstance(events, list) else [events]:
+                e._sort_index = counter.__next__()
         self._event_heap.push(events)
         if not self._is_running:
             self._save_event_specs(events)
